@@ -18,6 +18,6 @@ CONSTANTS
   LateJoin = TRUE
   BobLevel <- NotListed
   SendKinds <- AllKinds
-INVARIANTS Report TypeOK Convergence OrderIndependence RejectedNeverInState BanHolds OwnSendsAccepted OwnPrevsAccepted HonestRoomsAgree BadNeverAccepted TipsAreFrontier AuthKnown HandoverClean
+INVARIANTS Report TypeOK Convergence OrderIndependence RejectedNeverInState BanHolds BanHoldsStrict OwnSendsAccepted OwnPrevsAccepted HonestRoomsAgree BadNeverAccepted TipsAreFrontier AuthKnown HandoverClean
 POSTCONDITION TraceAccepted
 CHECK_DEADLOCK FALSE
